@@ -468,4 +468,52 @@ theorem skDecode_is_algorithm_25 (m : Mode) (p : ParamSet) (skb : List Nat) (hb 
     rw [this, Bool.false_and]
     simp only [ok_bind, pure_eq, Bool.false_eq_true, if_false]
 
+
+/-! ### sigEncode -/
+
+/-- **`sig_encode` is FIPS 204 Algorithm 26 (`sigEncode`) as written**, on every in-range response and every 0/1 hint with at most omega ones -/
+theorem sigEncode_is_algorithm_26 (m : Mode) (p : ParamSet) (blz : Nat) (cfg : SigCfg p blz) (ct : List Nat) (z h : List Poly)
+    (hct : ct.length = p.lambdaDiv4) (hz : Sh p.l z) (hzr : ∀ q ∈ z, ∀ c ∈ q, -(p.gamma1 - 1) ≤ c ∧ c ≤ p.gamma1)
+    (hh : Sh p.k h) (hb : ∀ q ∈ h, Bin q) (hsum : onesAll h ≤ p.omega.toNat) :
+    sigEncode m false p ct z h = .ok (Spec.sigEncode blz p.gamma1 p.omega.toNat ct z h) := by
+  obtain ⟨bl0, h0, hbz, h1, hpow, hz1, hz2, hg1, hg2, _⟩ := gamma1_facts m p blz cfg
+  have hg2' : 2 ≤ p.gamma1 := by rcases cfg.g1 with ⟨h, _⟩ | ⟨h, _⟩ <;> omega
+  have hlen' := cfg.len
+  have hom := cfg.om
+  have hsl : sigLenOk m p = .ok true := by
+    unfold sigLenOk
+    rw [arith_i32 _ _ _ (by omega) (by omega), ok_bind, h0, ok_bind, pure_eq]
+    congr 1
+    have e : (absI p.omega).toNat = p.omega.toNat := by rw [absI_eq, if_neg (by omega)]
+    rw [e, hlen']
+    simp only [beq_iff_eq]
+    have : p.l * 32 * (1 + bl0) = p.l * (32 * blz) := by rw [← hbz, Nat.mul_assoc, Nat.add_comm]
+    omega
+  unfold sigEncode
+  rw [arith_i32 _ _ _ (by omega) (by omega), ok_bind]
+  obtain ⟨bs1, hbs1, _, hbt1⟩ := mapM_ok_len (fun x => isInRange m x (p.gamma1 - 1) p.gamma1) (fun r => r ∈ z) (fun b => b = true)
+    (fun r hr' => ⟨true, isInRange_true m r (p.gamma1 - 1) p.gamma1 (by omega) (hzr r hr'), rfl⟩) z (fun a ha => ha)
+  have hall1 : bs1.all id = true := by rw [List.all_eq_true]; intro b hb'; exact hbt1 b hb'
+  obtain ⟨bs2, hbs2, _, hbt2⟩ := mapM_ok_len (fun x => isInRange m x 0 1) (fun r => r ∈ h) (fun b => b = true)
+    (fun r hr' => ⟨true, isInRange_true m r 0 1 (by omega) (fun c hc => by
+      rcases (hb r hr').2 c hc with h0 | h1 <;> omega), rfl⟩) h (fun a ha => ha)
+  have hall2 : bs2.all id = true := by rw [List.all_eq_true]; intro b hb'; exact hbt2 b hb'
+  simp only [hbs1, hbs2, ok_bind, pure_eq, hall1, hall2, dassertM_true, dassertM_ok m _ _ hsl]
+  rw [if_neg (by rw [hct]; exact fun h => h rfl), h0, ok_bind]
+  have hstep : 32 * (1 + bl0) = 32 * blz := by rw [← hbz, Nat.add_comm]
+  simp only [hstep]
+  have htake : z.take p.l = z := List.take_of_length_le (by rw [hz.1]; exact Nat.le_refl _)
+  have hzs := mapM_eq_map (fun x => bitPack m x (p.gamma1 - 1) p.gamma1 (32 * blz)) (fun x => Spec.bitPack blz p.gamma1 x) z
+    (fun r hr' => bitPack_is_algorithm_17 m r (p.gamma1 - 1) p.gamma1 blz (by omega) (by omega) h1 ⟨hz1, hz2⟩ (by omega) (hzr r hr') (hz.2 r hr'))
+  rw [htake, hzs, ok_bind]
+  have hfl : ((z.map (fun x => Spec.bitPack blz p.gamma1 x)).flatten).length = p.l * (32 * blz) := by
+    have hcr : ∀ o ∈ z.map (fun x => Spec.bitPack blz p.gamma1 x), o.length = 32 * blz := by
+      intro o ho; obtain ⟨r, _, rfl⟩ := List.mem_map.mp ho
+      unfold Spec.bitPack; exact bitsToBytes_len _ _
+    rw [flatten_len_const (32 * blz) _ hcr, List.length_map, hz.1]
+  rw [if_neg (by omega)]
+  have hrest : p.sigLen - (p.lambdaDiv4 + p.l * (32 * blz)) = p.omega.toNat + p.k := by omega
+  rw [hrest, hintBitPack_is_algorithm_20 m p.omega h p.k hom hh.1 cfg.omk hb hsum, ok_bind]
+  rfl
+
 end Fips204.Impl
